@@ -734,6 +734,7 @@ def write_evidence(tier, seed, batch, wall, workers, n_viol, klines, det_info, s
         "second_load_of_same_source": s["fork:reload"],
         "look_alike_crystal_with_shifted_sites": s["fork:stranger"],
         "handle_dropped_and_garbage_collected": s["fork:drop"],
+        "different_crystal_sharing_name_cell_and_group_number": s["fork:other"],
         "derived_crystals_as_handles": s["fork:derive_P1"] + s["fork:derive_cif"] + s["fork:derive_res"],
         "forks_taken_with_memo_present": s["fork_with_memo"],
         "write_error_before_any_byte": sum(v for k, v in s.items() if k.startswith("wfail:before")),
